@@ -35,11 +35,13 @@ KxAll    == KxCert \cup KxCertKe \cup KxPsk \cup KxPskKe \cup {"tls13", "null"}
 \* negotiated facts that steer the flow; fixed when the hello is processed
 Cfg == [kx : KxAll, resumed : BOOLEAN, cauth : BOOLEAN, tick : BOOLEAN,
         psk13 : BOOLEAN, early : BOOLEAN, fam : {"L", "T13"}, dtls : BOOLEAN,
+        med : Nat,           \* the server's configured maximum amount of early data (bytes)
+        eskip : BOOLEAN,     \* TLS 1.3 server that refused the client's early data: skips undecryptable records (RFC 8446 4.2.10)
         limbo : BOOLEAN,     \* client offered a ticket and ServerHello does not say whether it was taken (RFC 5077 3.4)
         retry : BOOLEAN]     \* retry: this hello is answered by HelloRetryRequest / HelloVerifyRequest
 
 NoCfg == [kx |-> "null", resumed |-> FALSE, cauth |-> FALSE, tick |-> FALSE,
-          psk13 |-> FALSE, early |-> FALSE, fam |-> "L", dtls |-> FALSE, limbo |-> FALSE, retry |-> FALSE]
+          psk13 |-> FALSE, early |-> FALSE, fam |-> "L", dtls |-> FALSE, med |-> 0, eskip |-> FALSE, limbo |-> FALSE, retry |-> FALSE]
 
 \* why a session is dead
 DeadKinds == {"no", "fatalsent", "fatalrcvd", "error", "closed"}
@@ -136,6 +138,7 @@ InitSess(role, hs, dtls) ==
      rd |-> "none", wr |-> "none", cfg |-> [NoCfg EXCEPT !.dtls = dtls],
      dead |-> "no", closing |-> FALSE, done |-> FALSE,
      helloDone |-> FALSE, haveCookie |-> FALSE, gotNst |-> FALSE, retried |-> FALSE,
+     skipped |-> 0,                \* early-data records skipped so far (server that refused early data)
      desync |-> FALSE,             \* an incomplete record/message is buffered in front of the input
      tampered |-> FALSE,           \* ghost: the handshake byte stream it saw differs from what the peer sent
      recvSeq |-> <<>>,             \* ghost: handshake/CCS messages accepted, in order
@@ -160,6 +163,7 @@ ReadSecure(s) == s.rd # "none"
 (*   free   unprotected and not the honest peer's record as sent (injected, *)
 (*          header or body edited, re-framed): nothing predicts what the    *)
 (*          record layer makes of it, the choice ch below covers all cases  *)
+(*   len    size of its payload (only used for the early-data skipping limit) *)
 (*   frag   its bytes were edited so that it may be an incomplete record    *)
 (*   alvl, adesc  alert level / description (it = "alert")                  *)
 (* Choice ch (resolved by the trace, enumerated by the model checker):      *)
@@ -170,6 +174,7 @@ ReadSecure(s) == s.rd # "none"
 (***************************************************************************)
 RecTypes == {"hs", "ccs", "app", "alert", "junk"}
 Choices == {"good", "bad", "rlfail", "part"}
+
 
 (* How the record layer classifies the record. *)
 Verdict(s, r) ==
@@ -190,7 +195,8 @@ Kill(s, why) == [s EXCEPT !.dead = why]
 \*        message (incomplete or desynchronised records); gate/accept/record events are then not predicted,
 \*        only the outcome (still waiting, or dead) is
 Result(s2, gate, acc, ndlv, alertOut, rpass) ==
-    [next |-> s2, gate |-> gate, acc |-> acc, ndlv |-> ndlv, alertOut |-> alertOut, rpass |-> rpass, loose |-> FALSE]
+    [next |-> s2, gate |-> gate, acc |-> acc, ndlv |-> ndlv, alertOut |-> alertOut, rpass |-> rpass, loose |-> FALSE,
+     gateOpt |-> FALSE]      \* gateOpt: the message may be refused as malformed before it reaches the state gate
 
 Fatal(s, gate) == Result(Kill(s, "fatalsent"), gate, <<>>, 0, TRUE, TRUE)
 
@@ -216,7 +222,8 @@ RecvHs(s, r, c, ch) ==
     ELSE IF g = "REJECT" \/ (s.hs = "DONE" /\ s.fam = "L") THEN
         Fatal(s, <<>>)                   \* out of order: unexpected_message
     ELSE IF ~good THEN
-        Fatal(s, <<m>>)                  \* passed the gate but the body does not parse / verify
+        \* the body does not parse / verify (a malformed header is refused even before the gate)
+        [Fatal(s, <<m>>) EXCEPT !.gateOpt = ~r.gen]
     ELSE IF m = "FINISHED" /\ (s.tampered \/ ~r.gen) THEN
         Fatal(s, <<m>>)                  \* Finished is checked against the receiver's own transcript
     ELSE IF m = "FINISHED" /\ fam2 = "L" /\ ~ReadSecure(s) THEN
@@ -315,7 +322,10 @@ AllowedChoices(s, r) ==
     \* discarded silently (RFC 6347 4.1.2.7); "part" stands for that on DTLS sessions
     IF s.cfg.dtls THEN (IF r.gen /\ ~r.free THEN (IF r.it = "hs" THEN {"good", "bad", "part"} ELSE {"good", "part"}) ELSE Choices)
     ELSE IF s.desync THEN {"rlfail", "part"}
-    ELSE IF v = "bad" THEN (IF r.frag THEN {"good", "part"} ELSE {"good"})
+    ELSE IF v = "bad" THEN (IF r.frag THEN {"good", "part"} ELSE {"good"}) \cup
+                          \* C15's only tolerated undecryptable records: a TLS 1.3 server that refused early data skips
+                          \* them until the client's handshake flight arrives, within the configured limit
+                          (IF s.cfg.eskip /\ s.role = "S" /\ ~s.done /\ s.skipped + r.len <= s.cfg.med THEN {"skip"} ELSE {})
     ELSE IF v \in {"ignore", "plainalert"} THEN (IF r.gen THEN {"good"} ELSE IF r.frag THEN {"good", "bad", "part"} ELSE {"good", "bad"})
     \* a well-formed genuine handshake message can still be refused on its merits (empty or untrusted
     \* certificate, unacceptable parameters): "bad" stays possible for handshake messages
@@ -343,6 +353,7 @@ Recv(s, r, c, ch) ==
            \* fails authentication: TLS dies with a fatal alert; DTLS may also silently discard.
            \* (a record whose length field was raised is simply incomplete: the endpoint waits)
            IF ch = "part" THEN Pending(s, FALSE)
+           ELSE IF ch = "skip" THEN Result([s EXCEPT !.skipped = s.skipped + r.len], <<>>, <<>>, 0, FALSE, FALSE)
            ELSE Result(Kill(s, "fatalsent"), <<>>, <<>>, 0, TRUE, FALSE)
       [] v = "garbage" ->
            IF ch = "part" THEN Pending(s, FALSE)
@@ -358,13 +369,16 @@ RecvDead(s) ==
 -----------------------------------------------------------------------------
 (* Application-side actions *)
 
-MaySend(s) ==
+\* ce / se: the session has TLS 1.3 early data enabled (client: it holds a resumption PSK that allows it;
+\* server: it accepted the client's early data) - tls13Encode.c isGoodStateForAppDataEncrypt
+MaySend(s, ce, se) ==
     /\ Live(s) /\ ~s.closing
     /\ \/ s.hs = "DONE"
-       \/ s.fam = "T13" /\ s.role = "C" /\ s.cfg.early /\ s.hs \in {"T13_WAIT_SH", "T13_WAIT_EE", "T13_WAIT_FINISHED"}
+       \/ s.fam = "T13" /\ s.role = "C" /\ ce /\ s.hs \in {"T13_WAIT_SH", "T13_WAIT_EE", "T13_WAIT_FINISHED", "T13_WAIT_CERT_CR", "T13_WAIT_CERT", "T13_WAIT_CV"}
+       \/ s.fam = "T13" /\ s.role = "S" /\ se /\ s.hs \in {"T13_WAIT_EOED", "T13_WAIT_FINISHED"}
 
-AppSend(s) ==
-    IF MaySend(s) THEN [s EXCEPT !.sendLog = Append(s.sendLog, [hs |-> s.hs, wr |-> s.wr, dead |-> s.dead])]
+AppSend(s, ce, se) ==
+    IF MaySend(s, ce, se) THEN [s EXCEPT !.sendLog = Append(s.sendLog, [hs |-> s.hs, wr |-> s.wr, dead |-> s.dead])]
     ELSE s
 
 Close(s) == [s EXCEPT !.closing = TRUE]
@@ -388,7 +402,7 @@ EncodeGate ==
         \A i \in 1..Len(sess[e].sendLog) :
             LET d == sess[e].sendLog[i] IN
             /\ d.dead = "no"
-            /\ d.hs = "DONE" \/ d.hs \in {"T13_WAIT_SH", "T13_WAIT_EE", "T13_WAIT_FINISHED"}
+            /\ d.hs = "DONE" \/ d.hs \in {"T13_WAIT_SH", "T13_WAIT_EE", "T13_WAIT_FINISHED", "T13_WAIT_CERT_CR", "T13_WAIT_CERT", "T13_WAIT_CV", "T13_WAIT_EOED"}
 
 \* C06: the legal handshake/CCS sequences, written from the RFC message flows
 \* (RFC 5246 7.3, RFC 5077 3.1, RFC 4279, RFC 6347 4.2, RFC 8446 2) and NOT from the gate tables above.
